@@ -2,7 +2,7 @@
     [walk_ok] is an independent walker over the emitted octets: the Length field
     equals the number of octets, and records of the size each AVP header
     announces tile the body exactly. *)
-From RL Require Import Model.Encode Spec.SpecEncode Spec.SpecDecode Proofs.RefineEncode Proofs.EncodeFacts.
+From RL Require Import Model.Encode Model.Hide Spec.SpecEncode Spec.SpecDecode Proofs.RefineEncode Proofs.EncodeFacts Proofs.Hiding.
 
 Theorem C07_lengths_exact : forall v p out, m_encode v p = Val out ->
   exists body, out = p ++ body /\ body = s_encode v /\
@@ -24,6 +24,11 @@ Theorem C07_oversize_msg : forall m p,
   m_encode (Control m) p = Panic PkAssert.
 Proof. exact oversize_msg. Qed.
 
+(** hide() asserts that the original AVP fits before storing its length *)
+Theorem C07_hide_asserts : forall (H : list N -> list N), (forall x, len (H x) = 16) -> forall a secret rv lp ap,
+  is_hidden a = false -> 1023 < avp_total a -> m_hide H a secret rv lp ap = Panic PkAssert.
+Proof. exact hide_oversize. Qed.
+
 Example C07_boundary :
   avp_fits (ABytes HostName (repeat 0 1017)) = true /\ avp_fits (ABytes HostName (repeat 0 1018)) = false.
 Proof. split; vm_compute; reflexivity. Qed.
@@ -33,3 +38,4 @@ Print Assumptions C07_avp_length_field.
 Print Assumptions C07_get_length.
 Print Assumptions C07_oversize_avp.
 Print Assumptions C07_oversize_msg.
+Print Assumptions C07_hide_asserts.
